@@ -7,6 +7,7 @@ import (
 	"gonum.org/v1/gonum/graph"
 	"gonum.org/v1/gonum/graph/encoding/digraph6"
 	"gonum.org/v1/gonum/graph/encoding/graph6"
+	"gonum.org/v1/gonum/graph/iterator"
 	"gonum.org/v1/gonum/graph/simple"
 	"verif/simio"
 	"verif/simrt"
@@ -286,6 +287,24 @@ func g6Build(n int, adj [][]bool, directed bool, ids []int64) graph.Graph {
 		}
 	}
 	return g
+}
+
+// g6Looped is a graph with self loops at some nodes on top of a simple graph.
+type g6Looped struct {
+	graph.Graph
+	loops map[int64]bool
+}
+
+func (g g6Looped) From(id int64) graph.Nodes {
+	nodes := graph.NodesOf(g.Graph.From(id))
+	if g.loops[id] {
+		nodes = append(nodes, g.Graph.Node(id))
+	}
+	return iterator.NewOrderedNodes(nodes)
+}
+
+func (g g6Looped) HasEdgeBetween(x, y int64) bool {
+	return (x == y && g.loops[x]) || g.Graph.HasEdgeBetween(x, y)
 }
 
 func g6Show(s string) string {
@@ -676,7 +695,7 @@ func g6CheckDamaged(c *Ctx, cd *g6Codec, what, d string, n0 int, truncated bool,
 func g6Run(c *Ctx, cd *g6Codec) *Violation {
 	t := c.T
 	n, adj := g6Draw(c, cd.directed)
-	c.Declare("hand_written_long_header", "node_ids_not_0_to_n-1", "negative_ids_with_largest_n-1", "header_4_byte_form", "damaged_string_still_valid", "damaged_string_invalid", "noncanonical_accepted", "substitution_exhaustive", "substitution_sampled")
+	c.Declare("undirected_graph_with_self_loops", "hand_written_long_header", "node_ids_not_0_to_n-1", "negative_ids_with_largest_n-1", "header_4_byte_form", "damaged_string_still_valid", "damaged_string_invalid", "noncanonical_accepted", "substitution_exhaustive", "substitution_sampled")
 	// node IDs of the graph handed to Encode: 0..n-1, or any increasing
 	// sequence (negative, with gaps, far from zero)
 	ids := make([]int64, n)
@@ -713,11 +732,19 @@ func g6Run(c *Ctx, cd *g6Codec) *Violation {
 			c.Instance["node_ids"] = fmt.Sprintf("%d + 3i", int64(1)<<40)
 		}
 	}
+	loopy := t.Choose(simrt.KWorkload, 5) == 4
+	loopAt := t.Choose(simrt.KValue, 4096)
 	var s string
 	var encoded bool
 	var deferred *Violation
 	if v := c.Guard("Graph/control", func() string { return fmt.Sprintf("Encode of a graph of order %d (%v)", n, c.Instance) }, func() *Violation {
 		g := g6Build(n, adj, cd.directed, ids)
+		if !cd.directed && n > 0 && loopy {
+			// graph6 describes simple graphs: a loop has no bit in it and
+			// must not turn into one
+			g = g6Looped{g, map[int64]bool{ids[loopAt%n]: true, ids[(loopAt/7)%n]: true}}
+			c.Probe("undirected_graph_with_self_loops", 1)
+		}
 		s = cd.encode(g)
 		encoded = true
 		c.Case("control", true, hashString(s))
